@@ -6,7 +6,12 @@
 #include "api.h"
 static uint64_t fnv1(uint64_t h, const void *p, size_t n) { const unsigned char *c = p; for (size_t i = 0; i < n; i++) { h ^= c[i]; h *= 1099511628211ULL; } return h; }
 typedef struct { int z, m; double e; int s; } Cell;
-static const char *SS[] = {"H2O", "Water, Liquid", "nope", "Ca5(PO4)3OH"};
+/* besides four ordinary strings: pairs that differ only after a long common prefix (31, 70 and 300 bytes), where a key that is truncated or hashed carelessly collides */
+#define P70 "C1H1N1O1F1Na1Mg1Al1Si1P1S1Cl1K1Ca1Ti1V1Cr1Mn1Fe1Co1Ni1Cu1Zn1Ga1Ge1As1Se1"
+#define P300 P70 "Br1Rb1Sr1Y1Zr1Nb1Mo1Ru1Rh1Pd1Ag1Cd1In1Sn1Sb1Te1I1Cs1Ba1La1Ce1Pr1Nd1Sm1Eu1Gd1Tb1Dy1Ho1Er1Tm1Yb1Lu1Hf1Ta1W1Re1Os1Ir1Pt1Au1Hg1Tl1Pb1Bi1Th1U1" "C2H2N2O2F2Na2Mg2Al2Si2P2S2Cl2K2Ca2Ti2V2Cr2Mn2Fe2Co2Ni2Cu2Zn2Ga2Ge2As2Se2"
+#define NSS 10
+static const char *SS[NSS] = {"H2O", "Water, Liquid", "nope", "Ca5(PO4)3OH",
+  "Fe0.70000Cr0.19000Ni0.10000Mo0.09000", "Fe0.70000Cr0.19000Ni0.10000Mo0.01000", P70 "Pb9", P70 "Pb1", P300 "U7", P300 "U3"};
 static uint64_t eval(const ApiFn *f, const Cell *c) {
   int ia[2] = {c->z, c->m}; double da[3] = {c->e, 0.7, 0.3}; xrl_error *e = NULL;
   double v = api_call(f, ia, da, SIG_NS[f->sig] ? SS[c->s] : NULL, &e);
@@ -26,9 +31,9 @@ int cmd_c16s(int argc, char **argv) {
     if (idx++ % nparts != part) continue;
     uint64_t dig0 = xrl_tables_digest();
     int ni = SIG_NI[f->sig], nd = SIG_ND[f->sig], ns = SIG_NS[f->sig];
-    long n = (long)(ni ? 102 : 1) * (ni > 1 ? f->mhi - f->mlo + 1 : 1) * (nd ? 3 : 1) * (ns ? 4 : 1);
+    long n = (long)(ni ? 102 : 1) * (ni > 1 ? f->mhi - f->mlo + 1 : 1) * (nd ? 3 : 1) * (ns ? NSS : 1);
     Cell *cells = malloc(n * sizeof *cells); uint64_t *r1 = malloc(n * sizeof *r1); long k = 0;
-    for (int z = ni ? -1 : 0; z <= (ni ? 100 : 0); z++) for (int m = ni > 1 ? f->mlo : 0; m <= (ni > 1 ? f->mhi : 0); m++) for (int a = 0; a < (nd ? 3 : 1); a++) for (int s = 0; s < (ns ? 4 : 1); s++)
+    for (int z = ni ? -1 : 0; z <= (ni ? 100 : 0); z++) for (int m = ni > 1 ? f->mlo : 0; m <= (ni > 1 ? f->mhi : 0); m++) for (int a = 0; a < (nd ? 3 : 1); a++) for (int s = 0; s < (ns ? NSS : 1); s++)
       cells[k++] = (Cell){z, m, ES[a], s};
     long ndiff = 0; long firsts[8]; int passof[8]; int nf = 0;
     for (long i = 0; i < n; i++) r1[i] = eval(f, &cells[i]);
@@ -45,6 +50,18 @@ int cmd_c16s(int argc, char **argv) {
     free(perm);
     if (nkept < 400) { kept[nkept].f = f; kept[nkept].cells = cells; kept[nkept].r1 = r1; kept[nkept++].n = n; } else { free(cells); free(r1); }
   }
+  /* soak: the same call many times over (failing and succeeding ones), so that anything that accumulates per call - a counter that is
+   * not wound back on a failure path, a table that fills up - has passed its limit before the last pass */
+  { static const char *PF[] = {"Ca(Oh)2", "H2O)", "(H2O", "Ca5(PO4)3F", "((((H2O))))", "X", ""};
+    for (int r = 0; r < 1500; r++) {
+      for (unsigned i = 0; i < sizeof PF / sizeof *PF; i++) { struct compoundData *c = CompoundParser(PF[i], NULL); if (c) FreeCompoundData(c); (void)CS_Total_CP(PF[i], 10.0, NULL); }
+      (void)CS_Total(-1, 1.0, NULL); (void)CS_Total(26, -1.0, NULL); (void)LineEnergy(26, 9999, NULL); (void)CS_FluorLine(26, KL3_LINE, 1.0, NULL); (void)EdgeEnergy(200, 0, NULL);
+      { char *sy = AtomicNumberToSymbol(-1, NULL); if (sy) xrlFree(sy); (void)SymbolToAtomicNumber("Xx", NULL); }
+      { struct compoundDataNIST *d = GetCompoundDataNISTByName("nope", NULL); if (d) FreeCompoundDataNIST(d); d = GetCompoundDataNISTByIndex(-1, NULL); if (d) FreeCompoundDataNIST(d); }
+      { struct radioNuclideData *d = GetRadioNuclideDataByName("nope", NULL); if (d) FreeRadioNuclideData(d); }
+      { Crystal_Struct *c = Crystal_GetCrystal("nope", NULL, NULL); if (c) Crystal_Free(c); c = Crystal_GetCrystal("Si", NULL, NULL); if (c) { (void)Bragg_angle(c, 0.1, 1, 1, 1, NULL); (void)Crystal_dSpacing(c, 0, 0, 0, NULL); Crystal_Free(c); } }
+      { double f0, f1, f2; (void)Atomic_Factors(0, 10.0, 0.5, 1.0, &f0, &f1, &f2, NULL); (void)Refractive_Index_Re("nope", 10.0, 1.0, NULL); }
+    } }
   for (int q = 0; q < nkept; q++) {
     long ndiff = 0; long firsts[8]; int nf = 0; ApiFn *f = kept[q].f; int ns = SIG_NS[f->sig];
     for (long i = 0; i < kept[q].n; i++) if (eval(f, &kept[q].cells[i]) != kept[q].r1[i]) { if (nf < 8) firsts[nf++] = i; ndiff++; }
